@@ -17,7 +17,7 @@ META = {
         "contexts; a cycle between lock kinds is a potential deadlock and the minority direction's sites are reported (may-analysis). (d) the per-class lock table only grows: no "
         "pop/del/rebinding of entries outside class initialisation (other objects bound to the old key keep working); (e) a lock is added to the table, and the test that it is missing is made, "
         "under the class lock; (g) no lock operation depends on a test of the (thread-shared) buffering counters. (c') two locks of the same kind: no collection lock is acquired while the collection lock of ANOTHER tree is held unless a class-wide lock taken first serialises both "
-        "threads; and, because mutators read their argument under their own collection lock, no read path acquires a collection lock (a.update(b) || b.update(a)). Liveness in general is NOT decided."
+        "threads; and, because mutators read their argument under their own collection lock, no read path acquires a collection lock (a.update(b) || b.update(a)). (e) an entry is added to the lock table only under the class lock and only after a test, under that lock, that the resource has no lock yet (never unconditionally). Liveness in general is NOT decided."
     ),
     "rule": "contexts = thread-safe class x (mutators + readers + property setters) x {root,nested} x mode; non-trivial = acquires a lock",
     "trusted_base": ["engine CFG incl. exception edges and with/try/finally lowering", "lock-table lookups do not raise (guaranteed by C10.d itself)"],
